@@ -315,13 +315,16 @@ def _mp_tile_worker(queue, done_event, pio, _kwargs):
     tile_parity_sign = pio.get_default_vertical_parity_sign()
 
     while True:
+        # Sample the flag before receiving; see `pyramid._mp_visit_worker`.
+        done = done_event.is_set()
+
         try:
             # un-pickling WCS objects always triggers warnings right now
             with warnings.catch_warnings():
                 warnings.simplefilter("ignore")
                 image, desc = queue.get(True, timeout=1)
         except Empty:
-            if done_event.is_set():
+            if done:
                 break
             continue
 
